@@ -90,6 +90,10 @@ def check(ctx: Ctx) -> None:
 
     conversions(ctx)
     ownership.check_no_internal_escape(ctx, "TS8")
+    # the derivation routes (judged in full by C16) hand out Sequence objects: if one of them shares message objects with
+    # its source, an in-place operation on the piece rewrites the source's view behind its freshness flags
+    ownership.check_routes(ctx, "TS8", routes=["AbstractSequence.copy", "Sequence.copy", "RelativeSequence.split", "Sequence.split",
+                                                "Sequence.sequences_split_bars"])
     from ..engines.mustflow import check_sorted_invariant
     nsi = check_sorted_invariant(ctx, "ABS-SORTED")
     ctx.floor("AbsoluteSequence methods that change times/order", nsi, 4)
